@@ -75,7 +75,20 @@ def run_history(case):
                     "different": [C.model_file_name(n) for n in di], "order_only": oo, "text": r["text"][-200:]}
         obs.append(observe(w.run()))
         for op in case["ops"]:
-            if op.startswith("delete:"):
+            if op.startswith("cache:"):
+                # the record rewritten as other versions of the tool would leave it: a key missing, an unknown key.
+                # serde fills / ignores them and combined_hash decides, so the model takes no step
+                try:
+                    import json
+                    rec = json.load(open(w.out(C.CACHE)))
+                    if op == "cache:drop_events_hash":
+                        rec.pop("events_hash", None)
+                    else:
+                        rec["written_by"] = "a newer version"
+                    json.dump(rec, open(w.out(C.CACHE), "w"), indent=2)
+                except (OSError, ValueError):
+                    pass
+            elif op.startswith("delete:"):
                 n = op.split(":", 1)[1]
                 try:
                     os.remove(w.out(n))
@@ -270,6 +283,29 @@ def partition_cases():
     return cases
 
 
+# previous-state-dependent paths through the event part of the record: events present -> absent -> different,
+# several emit sites of one name with different payload types edited in turn, records of other formats
+EV_OPS = ["event_payload", "event_site2", "event_name", "events_off", "event_add", "cache:drop_events_hash"]
+EV_MORE = ["cache:extra_key", "delete:events.ts", "delete:index.ts"]
+
+
+def event_histories(tier, rng):
+    cases = []
+    for entry in ("cli", "build"):
+        for n in (1, 2):
+            for seq in itertools.product(EV_OPS + EV_MORE, repeat=n):
+                cases.append({"entry": entry, "base": "none", "ops": list(seq)})
+        for seq in itertools.product(EV_OPS, repeat=3):
+            cases.append({"entry": entry, "base": "none", "ops": list(seq)})
+        if tier == "thorough":
+            for seq in itertools.product(EV_OPS, repeat=4):
+                cases.append({"entry": entry, "base": "zod", "ops": list(seq)})
+        for _ in range(60 if tier == "quick" else 600):
+            cases.append({"entry": entry, "base": rng.choice(["none", "zod"]),
+                          "ops": [rng.choice(EV_OPS + EV_MORE) for _ in range(rng.randint(4, 5))]})
+    return cases
+
+
 def config_histories():
     """all sequences of length <= 2 over the configuration-value edits, through typegen.json / -c and through
     tauri.conf.json, from a base without and with a type mapping"""
@@ -306,7 +342,7 @@ def run(rep):
     outs, oo = eval_histories(witnesses() + regressions("C08"))
     rep.add("corpus", outs)
     rep.add("partition", eval_partition(partition_cases()))
-    cases = config_histories() + history_cases(rep.tier, rng)
+    cases = config_histories() + event_histories(rep.tier, rng) + history_cases(rep.tier, rng)
     rep.extra["history_distribution"] = distribution(cases)
     total_oo = oo
     for i in range(0, len(cases), 400):
